@@ -602,10 +602,17 @@ type monitor struct {
 	ever   map[string]bool     // C10: non-TLD names ever registered (register answered true)
 	ref    map[string][]string // C12: (token, name, type) -> values in insertion order, built from successful calls
 	broken map[string]bool     // state invariants already reported in this case
+	// C11: who holds which role on a name according to the history of SUCCESSFUL calls, as the property text
+	// describes them (independent of the owner/admin fields the contract keeps in storage)
+	roles map[string]*roleRef
+}
+
+type roleRef struct {
+	owner, admin []byte // owner nil: committee-owned (TLD)
 }
 
 func newMonitor(w *world) *monitor {
-	return &monitor{w: w, ever: map[string]bool{}, ref: map[string][]string{}, broken: map[string]bool{}}
+	return &monitor{w: w, ever: map[string]bool{}, ref: map[string][]string{}, broken: map[string]bool{}, roles: map[string]*roleRef{}}
 }
 
 func (m *monitor) v(prop string, o opLine, what, detail string) {
@@ -685,12 +692,69 @@ func tld(n string) bool { return !strings.Contains(n, ".") }
 
 func eqB(a, b []byte) bool { return bytes.Equal(a, b) }
 
-// authorisedFor: owner or admin of the recorded state witnessed the call (the committee when the owner is empty).
-func authorisedFor(o opLine, ns nameSt) bool {
-	if len(ns.owner) == 0 {
+// roleAuth: the owner or the admin witnessed the call (the committee when the name is committee-owned).
+func roleAuth(o opLine, r roleRef) bool {
+	if len(r.owner) == 0 {
 		return o.cmt
 	}
-	return o.witnessed(ns.owner) || o.witnessed(ns.admin)
+	return o.witnessed(r.owner) || o.witnessed(r.admin)
+}
+
+// authorised: does the call carry the witnesses the property demands for its method, the roles being given by get?
+// (The enclosing registered name of a record operation is found from the registration/expiration data.)
+func (m *monitor) authorised(o opLine, get func(string) (roleRef, bool), prev *snap, t *big.Int) (bool, string) {
+	a := o.args
+	switch o.method {
+	case "addRecord", "setRecord", "deleteRecords":
+		tok, has := enclosing(prev, string(hx.UnHex(a[0])), t)
+		r, known := get(tok)
+		return has && known && roleAuth(o, r), "owner/admin of " + tok
+	case "updateSOA", "renew", "renewDefault":
+		r, known := get(string(hx.UnHex(a[0])))
+		return known && roleAuth(o, r), "owner/admin of the name"
+	case "transfer":
+		r, known := get(string(hx.UnHex(a[1])))
+		return known && o.witnessed(r.owner), "owner"
+	case "setAdmin":
+		r, known := get(string(hx.UnHex(a[0])))
+		return known && o.witnessed(r.owner) && (a[1] == "-" || o.witnessed(hx.UnHex(a[1]))), "owner and new admin"
+	case "register":
+		n := string(hx.UnHex(a[0]))
+		ok, why := o.witnessed(hx.UnHex(a[1])), "owner-to-be"
+		if len(labels(n)) > 2 {
+			r, known := get(parentOf(n))
+			ok = ok && known && roleAuth(o, r)
+			why += " and owner/admin of the enclosing name"
+		}
+		return ok, why
+	case "registerTLD", "setPrice":
+		return o.cmt, "committee"
+	}
+	return false, "nobody (no invocation)"
+}
+
+// updateRoles: the reference table follows the successful calls as the property describes them: a registration
+// (first or after expiry) makes the given owner the owner with no admin; a transfer to somebody else makes the
+// receiver the owner and clears the admin; setAdmin appoints (or removes) the admin; TLDs are committee-owned.
+func (m *monitor) updateRoles(o opLine, success bool) {
+	if !success {
+		return
+	}
+	a := o.args
+	switch o.method {
+	case "registerTLD":
+		m.roles[string(hx.UnHex(a[0]))] = &roleRef{}
+	case "register":
+		m.roles[string(hx.UnHex(a[0]))] = &roleRef{owner: hx.UnHex(a[1])}
+	case "transfer":
+		if r, ok := m.roles[string(hx.UnHex(a[1]))]; ok && !eqB(r.owner, hx.UnHex(a[0])) {
+			r.owner, r.admin = hx.UnHex(a[0]), nil
+		}
+	case "setAdmin":
+		if r, ok := m.roles[string(hx.UnHex(a[0]))]; ok {
+			r.admin = hx.UnHex(a[1])
+		}
+	}
 }
 
 func (m *monitor) afterOp(o opLine, oc outcome, prev, cur *snap) {
@@ -706,46 +770,31 @@ func (m *monitor) afterOp(o opLine, oc outcome, prev, cur *snap) {
 		m.v("C11", o, "failed-call-effect", "a failed invocation left notifications")
 	}
 	if changed || success && o.method != "tick" {
-		ok := true
-		why := ""
-		switch o.method {
-		case "addRecord", "setRecord", "deleteRecords":
-			n := string(hx.UnHex(a[0]))
-			tok, has := enclosing(prev, n, t)
-			ok = has && authorisedFor(o, prev.names[tok])
-			why = "owner/admin of " + tok
-		case "updateSOA", "renew", "renewDefault":
-			ns, has := prev.names[string(hx.UnHex(a[0]))]
-			ok = has && authorisedFor(o, ns)
-			why = "owner/admin of the name"
-		case "transfer":
-			ns, has := prev.names[string(hx.UnHex(a[1]))]
-			ok = has && o.witnessed(ns.owner)
-			why = "owner"
-		case "setAdmin":
-			ns, has := prev.names[string(hx.UnHex(a[0]))]
-			ok = has && o.witnessed(ns.owner) && (a[1] == "-" || o.witnessed(hx.UnHex(a[1])))
-			why = "owner and new admin"
-		case "register":
-			n := string(hx.UnHex(a[0]))
-			ok = o.witnessed(hx.UnHex(a[1]))
-			why = "owner-to-be"
-			if len(labels(n)) > 2 {
-				ns, has := prev.names[parentOf(n)]
-				ok = ok && has && authorisedFor(o, ns)
-				why += " and owner/admin of the enclosing name"
-			}
-		case "registerTLD", "setPrice":
-			ok = o.cmt
-			why = "committee"
-		case "tick":
-			ok = false
-			why = "nobody (no invocation)"
+		// judged twice: against the roles the history of successful calls establishes (reference table) and
+		// against the roles recorded in storage before the call; both must authorise
+		stored := func(n string) (roleRef, bool) {
+			ns, ok := prev.names[n]
+			return roleRef{ns.owner, ns.admin}, ok
 		}
-		if !ok {
-			m.v("C11", o, "unauthorised-"+o.method, "state changed or call succeeded without the witness of "+why)
+		hist := func(n string) (roleRef, bool) {
+			r, ok := m.roles[n]
+			if !ok {
+				return roleRef{}, false
+			}
+			return *r, true
+		}
+		for _, view := range []struct {
+			name string
+			get  func(string) (roleRef, bool)
+		}{{"the history of successful calls", hist}, {"storage", stored}} {
+			ok, why := m.authorised(o, view.get, prev, t)
+			if !ok {
+				m.v("C11", o, "unauthorised-"+o.method, "state changed or call succeeded without the witness of "+why+" (roles according to "+view.name+")")
+				break
+			}
 		}
 	}
+	m.updateRoles(o, success)
 
 	// ---- C10: accounting
 	if success && o.method == "register" {
